@@ -1094,3 +1094,165 @@ Proof.
       apply (snap_grid_none_count _ _ _ _ _ _ n H2); [lia|].
       rewrite Qabs_opp, Qabs_pos by lra. rewrite R. unfold span_y. field. split; lra.
 Qed.
+
+(** * Totality inside the domain *)
+
+Definition anchor_valid (anc : anchor) : Prop :=
+  match norm_anchor anc with
+  | Ok (NXY x y) => (0 <= x /\ x < 1) /\ (0 <= y /\ y < 1)
+  | Ok _ => True
+  | Err _ => False
+  end.
+
+Definition shape_valid (shape : option shape_req) : Prop :=
+  match shape with
+  | None => True
+  | Some (ShapeN n) => (0 < n)%Z
+  | Some (ShapeYX ny nx) => (0 < ny)%Z /\ (0 < nx)%Z
+  end.
+
+Lemma snap_of_ok tight na :
+  match na with NXY x y => (0 <= x /\ x < 1) /\ (0 <= y /\ y < 1) | _ => True end ->
+  off_ok (option_map fst (snap_of tight na)) /\ off_ok (option_map snd (snap_of tight na)).
+Proof.
+  intros H. destruct tight; [simpl; auto|].
+  destruct na; simpl; try (split; [split|split]; lra); auto.
+Qed.
+
+Lemma build_total B crs snap rx ry tol :
+  valid_box B -> 0 <= tol -> ~ rx == 0 -> ~ ry == 0 ->
+  off_ok (option_map fst snap) -> off_ok (option_map snd snap) ->
+  exists g, build B crs snap rx ry tol = Ok g.
+Proof.
+  intros [Vx Vy] Ht Hx Hy O1 O2. unfold build.
+  destruct (snap_grid_total (bl B) (br B) rx (option_map fst snap) tol Hx) as (tx & nx & ->); [lra|assumption|assumption|].
+  destruct (snap_grid_total (bb B) (bt B) ry (option_map snd snap) tol Hy) as (ty & ny & ->); [lra|assumption|assumption|].
+  cbn [bind]. eauto.
+Qed.
+
+Lemma cog_total s dst du B fit rq shape tight anc tol rr :
+  valid_box B -> 0 <= tol -> anchor_valid anc -> shape_valid shape ->
+  (shape = None -> exists rx ry, chosen s du fit rq rr = Ok (rx, ry) /\ ~ rx == 0 /\ ~ ry == 0) ->
+  exists o, compute_output_geobox s dst du B fit rq shape tight anc tol rr = Ok o.
+Proof.
+  intros V Ht Ha Hs Hr. rewrite cog_unfold.
+  destruct (shortcut s dst rq shape anc); [eauto|].
+  unfold anchor_valid in Ha. destruct (norm_anchor anc) as [na|] eqn:En; [|contradiction].
+  destruct (snap_of_ok tight na) as [O1 O2]. { destruct na; auto. }
+  destruct shape as [[n|ny nx]|].
+  - rewrite choose_resolution_shape. cbn [bind]. rewrite from_bbox_shapeN, En. cbn [bind].
+    simpl in Hs. destruct (longest_res_cases B n V Hs) as (L0 & _ & _).
+    pose proof V as [Vx Vy].
+    assert (E1 : Qeq_bool (span_y B) 0 = false) by (apply Qeq_bool_false; unfold span_y; lra).
+    assert (E2 : Z.eqb n 0 = false) by (apply Z.eqb_neq; lia).
+    rewrite E1, E2. cbn [negb guard bind].
+    destruct (build_total B dst (snap_of tight na) (longest_res B n) (- longest_res B n) tol) as (g & ->);
+      try assumption; try lra. cbn [bind]. eauto.
+  - rewrite choose_resolution_shape. cbn [bind]. unfold from_bbox. rewrite En. cbn [bind].
+    destruct Hs as [Hny Hnx]. pose proof V as [Vx Vy].
+    assert (E1 : Z.eqb nx 0 = false) by (apply Z.eqb_neq; lia).
+    assert (E2 : Z.eqb ny 0 = false) by (apply Z.eqb_neq; lia).
+    rewrite E1, E2. cbn [negb guard bind].
+    pose proof (inject_Z_pos nx Hnx) as Px. pose proof (inject_Z_pos ny Hny) as Py.
+    destruct (snap_of tight na) as [[sx sy]|]; [|cbn [bind]; eauto].
+    simpl in O1, O2.
+    assert (Rx : ~ span_x B / inject_Z nx == 0).
+    { intros C. assert (span_x B == (span_x B / inject_Z nx) * inject_Z nx) as Q by (field; lra).
+      rewrite C in Q. unfold span_x in Q. lra. }
+    assert (Ry : ~ - span_y B / inject_Z ny == 0).
+    { intros C. assert (- span_y B == (- span_y B / inject_Z ny) * inject_Z ny) as Q by (field; lra).
+      rewrite C in Q. unfold span_y in Q. lra. }
+    destruct (snap_grid_total (bl B) (br B) (span_x B / inject_Z nx) (Some sx) tol Rx) as (tx & n1 & ->);
+      [lra|assumption|assumption|].
+    destruct (snap_grid_total (bb B) (bt B) (- span_y B / inject_Z ny) (Some sy) tol Ry) as (ty & n2 & ->);
+      [lra|assumption|assumption|].
+    cbn [bind]. eauto.
+  - destruct (Hr eq_refl) as (rx & ry & Hc & Hx & Hy).
+    rewrite choose_resolution_none, Hc. cbn [bind]. rewrite from_bbox_resolution, En. cbn [bind].
+    destruct (build_total B dst (snap_of tight na) rx ry tol) as (g & ->); try assumption. cbn [bind]. eauto.
+Qed.
+
+(** * Python round(): half to even *)
+Lemma round_half_even_spec x :
+  let z := inject_Z (round_half_even x) in
+  x - (1 # 2) <= z /\ z <= x + (1 # 2) /\
+  ((z == x - (1 # 2) \/ z == x + (1 # 2)) -> Z.even (round_half_even x) = true).
+Proof.
+  unfold round_half_even. destruct (Qfloor_spec x) as (f & Ef & F1 & F2).
+  rewrite <- Ef. set (d := x - f).
+  destruct (Qltb d (1 # 2)) eqn:E1.
+  - apply Qltb_true in E1. cbv zeta. rewrite <- Ef. unfold d in *.
+    split; [lra|]. split; [lra|]. intros [C|C]; lra.
+  - apply Qltb_false in E1. destruct (Qltb (1 # 2) d) eqn:E2.
+    + apply Qltb_true in E2. cbv zeta. rewrite inject_Z_plus, <- Ef, inj1. unfold d in *.
+      split; [lra|]. split; [lra|]. intros [C|C]; lra.
+    + apply Qltb_false in E2. destruct (Z.even (Qfloor x)) eqn:E3; cbv zeta.
+      * rewrite <- Ef. unfold d in *. split; [lra|]. split; [lra|]. intros _. exact E3.
+      * rewrite inject_Z_plus, <- Ef, inj1. unfold d in *. split; [lra|]. split; [lra|].
+        intros _. rewrite Z.add_1_r, Z.even_succ, <- Z.negb_even, E3. reflexivity.
+Qed.
+
+(** * UTM requests *)
+Lemma first_max_spec l : forall b,
+  In (first_max b l) (b :: l) /\ forall c, In c (b :: l) -> snd c <= snd (first_max b l).
+Proof.
+  induction l as [|c l IH]; intros b.
+  - simpl. split; [auto|]. intros c [<-|[]]. lra.
+  - cbn [first_max]. destruct (IH (if Qltb (snd b) (snd c) then c else b)) as [I1 I2].
+    split.
+    + destruct (Qltb (snd b) (snd c)); destruct I1 as [<-|I1]; simpl; auto.
+    + intros c' Hc. destruct (Qltb (snd b) (snd c)) eqn:E.
+      * apply Qltb_true in E. destruct Hc as [<-|[<-|Hc]].
+        -- pose proof (I2 c (or_introl eq_refl)). lra.
+        -- apply I2. left. reflexivity.
+        -- apply I2. right. exact Hc.
+      * apply Qltb_false in E. destruct Hc as [<-|[<-|Hc]].
+        -- apply I2. left. reflexivity.
+        -- pose proof (I2 b (or_introl eq_refl)). lra.
+        -- apply I2. right. exact Hc.
+Qed.
+
+Lemma pick_best_spec cands big e :
+  pick_best_crs cands big = Ok e ->
+  exists c, In c cands /\ fst c = e /\
+            (big = true -> forall c', In c' cands -> snd c' <= snd c).
+Proof.
+  unfold pick_best_crs. destruct cands as [|c rest]; [discriminate|].
+  destruct ((1 <? Z.of_nat (length (c :: rest)))%Z && big) eqn:E.
+  - intros H. injection H as <-. destruct (first_max_spec rest c) as [I1 I2].
+    exists (first_max c rest). split; [exact I1|]. split; [reflexivity|]. intros _. exact I2.
+  - intros H. injection H as <-. exists c. split; [left; reflexivity|]. split; [reflexivity|].
+    intros ->. rewrite andb_true_r in E. apply Z.ltb_ge in E.
+    destruct rest; [|simpl length in E; lia].
+    intros c' [<-|[]]. lra.
+Qed.
+
+Lemma pick_best_empty big : pick_best_crs [] big = Err EValue.
+Proof. reflexivity. Qed.
+
+(** contract on pyproj's database for the candidates: each is WGS84 / UTM
+    zone [zone e] north (EPSG 326zz, letter N) or south (EPSG 327zz, letter S) *)
+Definition utm_db_ok (cands : list (Z * Q)) (letter : Z -> zone_letter) (zone : Z -> Z) : Prop :=
+  forall e, In e (map fst cands) ->
+    (letter e = ZN /\ e = (32600 + zone e)%Z) \/ (letter e = ZS /\ e = (32700 + zone e)%Z).
+
+Lemma norm_crs_utm_spec rq cands big letter zone r :
+  utm_db_ok cands letter zone ->
+  norm_crs_utm rq cands big letter = Ok r ->
+  exists e, pick_best_crs cands big = Ok e /\ In e (map fst cands) /\
+    match rq with
+    | Utm => r = e
+    | UtmN => r = (32600 + zone e)%Z
+    | UtmS => r = (32700 + zone e)%Z
+    end.
+Proof.
+  intros DB H. unfold norm_crs_utm in H. apply bind_ok in H. destruct H as (e & He & H).
+  exists e. split; [exact He|].
+  destruct (pick_best_spec _ _ _ He) as (c & Ic & Ec & _).
+  assert (Ie : In e (map fst cands)) by (rewrite <- Ec; apply in_map; exact Ic).
+  split; [exact Ie|].
+  destruct rq.
+  - injection H as <-. reflexivity.
+  - destruct (DB e Ie) as [[L E]|[L E]]; rewrite L in H; injection H as <-; lia.
+  - destruct (DB e Ie) as [[L E]|[L E]]; rewrite L in H; injection H as <-; lia.
+Qed.
